@@ -737,6 +737,28 @@ def constagree(repo):
                     "pass has established a single value (`let k = 2` / `[+k]`, `$upper_bound(x) - 253`) it still answers None, while "
                     "constraints.py already treats the field as fixed-size -- the back end writes `None` into the header",
                     m.rel, branches[kind][0].lineno, "constant_value")
+    # precedence for the bound functions: `$upper_bound(e)` *is* the bound the bounds pass found for e, so where the folder
+    # of this module has an entry for UPPER_BOUND / LOWER_BOUND (identity on the folded argument) the computed type must be
+    # consulted first -- the folder knows `(false && a == 0) ? 16 : 8` is 8 while the inferred range is 8..16, and a
+    # field of size `$upper_bound(...)` would get 16 bits of storage with a 9-bit inferred range
+    fold = [f for f in m.top_funcs() if f.name == "_constant_value_of_function"]
+    folds_bounds = bool(fold) and "UPPER_BOUND" in ast.unparse(fold[0].node)
+    if folds_bounds:
+        res.instances += 1
+        fb = branches["function"]
+        order_ok = False
+        for st in fb:
+            if isinstance(st, ast.If) and "UPPER_BOUND" in ast.unparse(st.test) and "LOWER_BOUND" in ast.unparse(st.test) and consults_type(st.body) \
+                    and any(isinstance(x, ast.Return) for x in ast.walk(st)):
+                # must come before the call of the folder
+                first_fold = min([x.lineno for s2 in fb for x in ast.walk(s2) if isinstance(x, ast.Call)
+                                  and (call_name(x) or "") == "_constant_value_of_function"] or [10**9])
+                order_ok = st.lineno < first_fold
+        if not order_ok:
+            res.add(f"{m.rel}|constant_value|bound-functions-first", "constant_value folds `$upper_bound(e)` / `$lower_bound(e)` as the value of e before "
+                    "looking at the computed type: the two evaluators disagree on `$upper_bound((false && a == 0) ? 16 : 8)` (8 vs 16), so one "
+                    "expression has two values in one header and a field sized by it can read above its inferred maximum",
+                    m.rel, fb[0].lineno, "constant_value")
     res.analysed = [m.rel]
     return res
 
@@ -950,5 +972,68 @@ def boundorder(repo):
                         "printed at `[compiler bug]`)", m.rel, n.lineno, f.name)
     if res.instances < 2 and not res.findings:
         raise AnalysisError(f"only {res.instances} constant reads of looked-up objects recognised")
+    res.analysed = [m.rel]
+    return res
+
+
+def choiceconst(repo):
+    """R-CHOICECONST (C05): when the condition of `c ? a : b` has a compile-time value the bounds pass copies the type
+    (bounds, modulus, constant value) of the branch that is taken -- `a` for true, `b` for false.  In
+    _compute_constraints_of_choice_operator, inside the block guarded by `<condition>.type.boolean.has_field("value")`,
+    the object whose `.type` is copied is selected by that value: an `x if <...boolean.value> else y` (or an if/else
+    over it) with x the second and y the third argument of the choice.  Copying one branch unconditionally makes
+    `false ? 1000 : x` the constant 1000 and gives a structure with an `if false:` field the size of that dead field."""
+    res = RuleResult("R-CHOICECONST")
+    m = repo.mod("compiler/front_end/expression_bounds.py")
+    fs = [f for f in m.top_funcs() if f.name == "_compute_constraints_of_choice_operator"]
+    if not fs:
+        raise AnalysisError("expression_bounds._compute_constraints_of_choice_operator not found")
+    f = fs[0]
+    names = None
+    for n in walk_no_nested_funcs(f.node):
+        if isinstance(n, ast.Assign) and isinstance(n.targets[0], ast.Tuple) and len(n.targets[0].elts) == 3 \
+                and all(isinstance(e, ast.Name) for e in n.targets[0].elts) and "function.args" in ast.unparse(n.value):
+            names = [e.id for e in n.targets[0].elts]
+    if not names:
+        raise AnalysisError("_compute_constraints_of_choice_operator: `condition, if_true, if_false = ...args` not found")
+    cond, t_name, f_name = names
+    block = None
+    for n in walk_no_nested_funcs(f.node):
+        if isinstance(n, ast.If) and re.search(re.escape(cond) + r"\.type\.boolean\.has_field\(['\"]value['\"]\)", ast.unparse(n.test)):
+            block = n
+    if block is None:
+        raise AnalysisError("_compute_constraints_of_choice_operator: constant-condition block not found")
+    res.instances = 2
+    local = {}
+    for st in block.body:
+        if isinstance(st, ast.Assign) and len(st.targets) == 1 and isinstance(st.targets[0], ast.Name):
+            local[st.targets[0].id] = st.value
+    copies = [c for st in block.body for c in ast.walk(st) if isinstance(c, ast.Call) and isinstance(c.func, ast.Attribute)
+              and c.func.attr == "CopyFrom" and ast.unparse(c.func.value).endswith(".type") and c.args]
+    ok = False
+    for c in copies:
+        src = c.args[0]
+        # <sel>.type
+        if isinstance(src, ast.Attribute) and src.attr == "type":
+            sel = src.value
+            if isinstance(sel, ast.Name) and sel.id in local:
+                sel = local[sel.id]
+            if isinstance(sel, ast.IfExp) and "boolean.value" in ast.unparse(sel.test) and cond in ast.unparse(sel.test) \
+                    and ast.unparse(sel.body) == t_name and ast.unparse(sel.orelse) == f_name:
+                ok = True
+            if isinstance(sel, ast.IfExp) and isinstance(sel.test, ast.UnaryOp) and isinstance(sel.test.op, ast.Not) \
+                    and "boolean.value" in ast.unparse(sel.test) and ast.unparse(sel.body) == f_name and ast.unparse(sel.orelse) == t_name:
+                ok = True
+    # if/else form
+    for st in block.body:
+        if isinstance(st, ast.If) and "boolean.value" in ast.unparse(st.test) and st.orelse:
+            b, o = ast.unparse(st.body[0]) if st.body else "", ast.unparse(st.orelse[0])
+            if f"CopyFrom({t_name}.type)" in b and f"CopyFrom({f_name}.type)" in o and not ast.unparse(st.test).startswith("not "):
+                ok = True
+    if not ok:
+        shown = ast.unparse(copies[0])[:80] if copies else "no CopyFrom"
+        res.add(f"{m.rel}|{f.name}|constant-condition", f"{f.name}: with a compile-time condition the result takes `{shown}`, not the type of the "
+                f"branch selected by `{cond}.type.boolean.value` (`{t_name}` for true, `{f_name}` for false): `false ? 1000 : x` is inferred "
+                "as the constant 1000, and `$size_in_bytes` counts fields under `if false:`", m.rel, block.lineno, f.name)
     res.analysed = [m.rel]
     return res
